@@ -289,6 +289,19 @@ def first_diag(err):
     return m.group(1) if m else err.strip()[:200]
 
 
+def has_ext_seq(spec, ty, depth=0):
+    t = spec.resolve(ty)
+    if depth > 40:
+        return True
+    if t.kind == 'seq':
+        return t.ext or any(has_ext_seq(spec, m.ty, depth + 1) for m in t.members)
+    if t.kind == 'seqof':
+        return has_ext_seq(spec, t.elem, depth + 1)
+    if t.kind == 'choice':
+        return any(has_ext_seq(spec, a, depth + 1) for _, a in t.alts)
+    return False
+
+
 def judge_fuzz(ctx, p, fz, report):
     rc, out, err = fz
     spec = p.spec
@@ -350,6 +363,11 @@ def judge_fuzz(ctx, p, fz, report):
                        rep, 'fuzz-differs')
         elif py[0] == 'ok':
             ctx.count('fuzz:accepted-value-outside-constraints')
+        elif py[1] == 'decode' and not ('sequence-extension-bit-ignored' in ACTIVE and has_ext_seq(spec, ty)):
+            # the Python decoder refuses these bytes (bad enumeration / choice index, bad length, ...):
+            # a generated decoder that takes them has lost a check
+            report('decoder accepts input %s that the Python codec rejects (%s): struct [%s]' % (
+                data.hex()[:60], py[2][:100], tok1[:160]), rep, 'fuzz-accepts-rejected')
         else:
             ctx.count('fuzz:c-accepts-python-rejects')
     if rc != 0:
